@@ -597,12 +597,12 @@ impl<S: Stage> DynStage for S {
             }
             // The code under test is not always a pure function of the case (hash seeds, its own
             // random ids): when the shrunk case does not fail every time, fall back to the case
-            // that failed first and accept it if it fails again in at least 2 of 6 executions.
+            // that failed first and accept it if it fails again in at least 2 of 12 executions.
             if !confirmed {
                 if let Some(fc) = first_case {
                     let mut fails = 0;
                     let mut cw: Option<Worker> = None;
-                    for _ in 0..6 {
+                    for _ in 0..12 {
                         WATCH_SLOTS[63].store(now_ms(base_instant()), Ordering::Relaxed);
                         let o = run_case(self, prop, &fc, &mut cw);
                         WATCH_SLOTS[63].store(0, Ordering::Relaxed);
@@ -616,7 +616,7 @@ impl<S: Stage> DynStage for S {
                     }
                     if fails >= 2 {
                         confirmed = true;
-                        d = format!("(unshrunk case; failed in {fails} of 6 further executions) {d}");
+                        d = format!("(unshrunk case; failed in {fails} of 12 further executions) {d}");
                         case = fc;
                     }
                 }
